@@ -112,6 +112,21 @@ def enc_nlri(n, withdraw=False):
         else: d = n[2] + n[3] + be32(n[4]) + [n[5]] + n[6] + n[7] + be24(n[8])
         return [k, len(d)] + d
     if t == 'srp': return [8 * (8 + len(n[3]))] + be32(n[1]) + be32(n[2]) + n[3]
+    if t == 'ls':
+        # RFC 9552 5.2: <NLRI type (2), length (2), protocol id, identifier (8), descriptor TLVs <type (2), length (2), value>>;
+        # node descriptors in the container TLV 256 (local) / 257 (remote); RFC 9514 6: SRv6 SID information TLV 518
+        tlv = lambda t_, v_: be16(t_) + be16(len(v_)) + list(v_)
+        tl = lambda l: sum((tlv(x[0], x[1]) for x in l), [])
+        k = n[1]
+        if k == 0:
+            body, ty = list(n[3]), n[2]
+        else:
+            body = [n[2]] + be32(n[3] >> 32) + be32(n[3] & 0xffffffff) + tlv(256, tl(n[4]))
+            ty = k
+            if k == 2: body += tlv(257, tl(n[5])) + tl(n[6])
+            elif k in (3, 4): body += tl(n[5])
+            elif k == 6: body += sum((tlv(518, be16(s[0]) + [0, 0] + list(s[1])) for s in n[5]), [])
+        return be16(ty) + be16(len(body)) + body
     if t == 'mup':
         # draft-ietf-bess-mup-safi 3.1: architecture type (1 = 3GPP-5G), route type (2), length (1), route
         k = n[1]
@@ -131,6 +146,20 @@ def nlri_ok(n):
     if t == 'rtc': return n[1] in (0, 1, 2) and n[2] < 2 ** 32 and (n[1] != 2 or len(n[3]) == 8)
     if t == 'evpn': return evpn_ok(n)
     if t == 'srp': return n[1] < 2 ** 32 and n[2] < 2 ** 32 and len(n[3]) in (4, 16)
+    if t == 'ls':
+        k = n[1]
+        if k == 0:
+            return n[2] < 65536 and len(n[3]) < 65536 and (n[2] not in (1, 2, 3, 4, 6) or len(n[3]) < 9)
+        def nd_ok(l):
+            tys = [x[0] for x in l]
+            return tys == sorted(set(tys)) and all(x[0] in (512, 513, 514, 515, 516, 517) and (x[0] == 515 or len(x[1]) == 4) for x in l)
+        tl_ok = lambda l: all(x[0] < 65536 and len(x[1]) < 65536 for x in l)
+        if not (n[2] < 256 and n[3] < 2 ** 64 and nd_ok(n[4])): return False
+        if k == 1: return True
+        if k == 2: return nd_ok(n[5]) and tl_ok(n[6]) and all(x[0] != 263 or len(x[1]) % 2 == 0 for x in n[6])
+        if k in (3, 4): return tl_ok(n[5]) and all((x[0] != 263 or len(x[1]) % 2 == 0) for x in n[5])
+        if k == 6: return all(s[0] < 65536 and len(s[1]) == 16 for s in n[5])
+        return False
     if t == 'mup':
         k = n[1]
         if not rd_ok(n[2]): return False
@@ -154,7 +183,7 @@ def nlri_size(n):
     if t in ('v4', 'v6'): return 1 + (n[1] + 7) // 8
     if t in ('vpn4', 'vpn6'): return 1 + 3 * len(n[1]) + 8 + (n[3] + 7) // 8
     if t in ('lab4', 'lab6'): return 1 + 3 * len(n[1]) + (n[2] + 7) // 8
-    if t in ('fs', 'rtc', 'evpn', 'srp', 'mup'): return len(enc_nlri(n))
+    if t in ('fs', 'rtc', 'evpn', 'srp', 'mup', 'ls'): return len(enc_nlri(n))
     return len(n[2])
 
 def nlri_key(n, withdraw=False):
@@ -173,6 +202,9 @@ def nlri_key(n, withdraw=False):
     if t == 'rtc': return ('rtc', n[1], n[2] if n[1] else 0, tuple(n[3]) if n[1] == 2 else ())
     if t == 'evpn': return ('evpn',) + tuple(tuple(x) if isinstance(x, list) else x for x in n[1:])
     if t == 'srp': return ('srp', n[1], n[2], tuple(n[3]))
+    if t == 'ls':
+        fz = lambda x: tuple(fz(y) for y in x) if isinstance(x, list) else x
+        return ('ls',) + fz(list(n[1:]))
     if t == 'mup':
         k = n[1]
         # a prefix is identified by its length and significant octets
@@ -184,7 +216,7 @@ def nlri_key(n, withdraw=False):
 
 def as_input_kind(n, raw_input):
     """a case that gives its NLRI as wire octets is compared on the RFC encoding of what the peer decoded"""
-    if raw_input and n[0] in ('fs', 'rtc', 'evpn', 'srp', 'mup'):
+    if raw_input and n[0] in ('fs', 'rtc', 'evpn', 'srp', 'mup', 'ls'):
         return ['raw', 0, enc_nlri(n)]
     return n
 
@@ -204,6 +236,7 @@ def val_to_nlri(v):
         if v[1] == 2: return ['evpn', 2, v[2], v[3], v[4], v[5], v[6], v[7], v[8][0] if v[8] else None]
         return ['evpn'] + list(v[1:])
     if t == 13: return ['srp', v[1], v[2], v[3]]
+    if t == 15: return ['ls'] + list(v[1:])
     if t == 14:
         if v[1] == 3: return ['mup', 3, v[2], v[3], v[4], v[5], v[6], v[7], v[8][0] if v[8] else None]
         return ['mup'] + list(v[1:])
